@@ -940,7 +940,8 @@ def get_stats(arr_in, weights=None, doprint=False, **kw):
                                     nsig * err[i], std[i]))
 
     if scalarify:
-        mn = mn[0]
+        # the mean is a scalar already when inputmean= was sent to wmom
+        mn = np.atleast_1d(mn)[0]
         std = std[0]
         err = err[0]
 
